@@ -7,6 +7,9 @@
 From RM Require Export C02.ModelR5.
 Open Scope Z_scope.
 
+(* the procfs-core release this file was written from (process/mod.rs, lib.rs of 0.17.0) *)
+Definition MODELLED_PROCFS_CORE : list Z := [0; 17; 0].
+
 (* ------------------------------------------------------------------ integers: {u32,u64,i32}::from_str_radix *)
 Definition digit_val (radix c : Z) : option Z :=
   if (48 <=? c) && (c <=? 57) then Some (c - 48)
